@@ -89,7 +89,8 @@ impl Constraint {
                 extensible,
             }) = &set.set
             {
-                return Ok((min, max, *extensible));
+                // the marker may be written behind a parenthesised element: `((0..10), ...)`
+                return Ok((min, max, *extensible || set.extensible));
             }
         }
         Err(GrammarError::new(
@@ -105,7 +106,7 @@ impl Constraint {
                 extensible,
             }) = &set.set
             {
-                return Ok((value, *extensible));
+                return Ok((value, *extensible || set.extensible));
             }
         }
         Err(GrammarError::new(
